@@ -212,10 +212,25 @@ func (e *Engine) LoadTemplates(filtername string) error {
 		_ = json.Unmarshal(manifest, &e.Assetrewrites)
 	}
 
-	e.templates, err = e.compileDir(path.Join(e.Basedir, "template", "page"), "", filtername)
+	templates, err := e.compileDir(path.Join(e.Basedir, "template", "page"), "", filtername)
 	if err != nil {
 		atomic.StoreInt32(&e.templatesLoaded, 0) // bail out :(
 		return err
+	}
+
+	if filtername == "" || e.templates == nil {
+		e.templates = templates
+	} else {
+		// a filtered load (debug mode: one per render) refreshes the templates below the filter and leaves the others
+		// alone, so that concurrent renders of different templates do not hide each other's templates
+		for name := range e.templates {
+			if strings.HasPrefix(name, filtername) {
+				delete(e.templates, name)
+			}
+		}
+		for name, tpl := range templates {
+			e.templates[name] = tpl
+		}
 	}
 
 	e.Webpackserver = false
